@@ -52,7 +52,7 @@ def raising_task(name, tag, after_items=0, kind=0, v=0):
 
 
 OK_MENU = 8
-FAULT_MENU = 17
+FAULT_MENU = 18
 
 
 def menu_slot(sel, i, v, pre=None):
@@ -92,6 +92,8 @@ def menu_slot(sel, i, v, pre=None):
         return TASK(raising_task("r%d" % i, i, after_items=1, kind=1, v=v))
     if sel == 16:
         return TASK(chain("c%d" % i, 2, 1, v))
+    if sel == 17:
+        return ITEM(1, v, "cancelself")
     raise AssertionError(sel)
 
 
